@@ -288,11 +288,11 @@ func tryReplay(root string, p *Program, o *Obligation, r *SolveResult, rf *Repla
 	fmt.Fprintf(&b, "\tfmt.Println(\"REPLAY-RETURNED\")\n}\n")
 	tf := filepath.Join(work, stem+"_test.go")
 	_ = os.WriteFile(tf, []byte(b.String()), 0644)
-	ov, _ := json.Marshal(map[string]interface{}{"Replace": map[string]string{filepath.Join("/repo", pkgDir, "zz_govc_replay_test.go"): tf}})
+	ov, _ := json.Marshal(map[string]interface{}{"Replace": map[string]string{filepath.Join(currentRepo, pkgDir, "zz_govc_replay_test.go"): tf}})
 	ovf := filepath.Join(work, stem+"_overlay.json")
 	_ = os.WriteFile(ovf, ov, 0644)
 	cmd := exec.Command("go", "test", "-v", "-overlay", ovf, "-vet=off", "-count=1", "-timeout", "60s", "-run", "^"+testName+"$", "./"+pkgDir+"/")
-	cmd.Dir = "/repo"
+	cmd.Dir = currentRepo
 	cmd.Env = append(os.Environ(), "GOFLAGS=-mod=mod", "GOPROXY=off", "GOSUMDB=off", "GOTOOLCHAIN=local", "CGO_ENABLED=0")
 	var buf bytes.Buffer
 	cmd.Stdout, cmd.Stderr = &buf, &buf
@@ -304,7 +304,7 @@ func tryReplay(root string, p *Program, o *Obligation, r *SolveResult, rf *Repla
 		}
 	}
 	rf.ReplayTest = tf
-	rf.ReplayCmd = "cd /repo && go test -v -overlay " + ovf + " -vet=off -count=1 -run '^" + testName + "$' ./" + pkgDir + "/"
+	rf.ReplayCmd = "cd " + currentRepo + " && go test -v -overlay " + ovf + " -vet=off -count=1 -run '^" + testName + "$' ./" + pkgDir + "/"
 	rf.Transcript = "input: " + strings.Join(show, "; ") + "\n" + strings.Join(keep, "\n")
 	panicked := strings.Contains(buf.String(), "REPLAY-PANIC")
 	returned := strings.Contains(buf.String(), "REPLAY-RETURNED")
@@ -660,6 +660,7 @@ func rpExpected(q *rpQuery, rv Value, rc *replayCtx, base string) (string, bool)
 }
 
 var currentGhostNames = map[string]bool{}
+var currentRepo = "/repo"
 
 func containsWord(text, w string) bool {
 	if strings.HasSuffix(w, "(") {
